@@ -450,10 +450,11 @@ def mon_c14(h, obs):
                         adm_gain = {a: cur[a] - prev[a] for a in cur if a.startswith("adm")}
                         share = adm_gain.get("adm3", 0) if t.to != "adm3" and t.frm != "adm3" else adm_gain.get("adm2", 0)
                         recv_share = share if t.to.startswith("adm") else 0
+                        send_share = share if t.frm.startswith("adm") else 0       # a sending admin gets its share of the fee back
                         if rc.ok:
                             if drecv - recv_share != amt:
                                 hits.append(Hit("C14/transfer-not-exact", f"transfer of {amt} credited {drecv - recv_share} to {t.to}", detail=b.raw))
-                            fee = -(dsend + amt)
+                            fee = -(dsend - send_share + amt)
                             if fee < 0 or fee - nadm * share < 0 or fee - nadm * share > nadm - 1:
                                 hits.append(Hit("C14/fee-rounding", f"sender paid fee {fee}, admins got {nadm}x{share}", detail=b.raw))
                         elif rc.ret == "funds":
@@ -628,9 +629,10 @@ def mask_unmodelled(impl, model, ops=None):
                     if after_success:
                         ra[i] = rb[i] = "?"        # later transactions of the block see balances the model does not follow
                     elif t and t[0] == "eth":
-                        if ra[i].startswith("S:"):
-                            stop = True
-                            after_success = True
+                        # a successful one moves value, and a failed one may still have bought its gas (the EVM charges a
+                        # transaction whose transfer cannot be covered after the gas was paid for)
+                        stop = True
+                        after_success = True
                         ra[i] = rb[i] = "?"
                 a = ma.group(1) + " ".join(ra) + ma.group(3)
                 b = mb.group(1) + " ".join(rb) + mb.group(3)
